@@ -279,6 +279,16 @@ def _r2(ctx, pkg):
     if tests:
         fails = (tests[0], all_test(tests[0]) < 0)          # the polarity under which "some species is not allowed"
         dominated = not guards_satisfiable(a.guards, [(ALLOWED, True), fails])
+    if not tests:
+        # no all(.. in allowed ..) over the reaction's species among the guards.  Understood and wrong: an all / any with another
+        # membership test, or no mention of the allowed list at all (the append is unguarded).  A test of the allowed list in another
+        # form (subset comparison of sets, a helper that could not be followed) is not understood.
+        gtxt = [x for g, _ in a.guards for x in walk(simp(g)) if isinstance(x, tuple)]
+        quantified = any(x[0] == "call" and x[1] in (("global", "all"), ("global", "any")) for x in gtxt)
+        mentions = any(x == ALLOWED for x in gtxt) or any(x[0] == "meth" and x[1] == SELF for x in gtxt)
+        if mentions and not quantified:
+            ctx.unrec("R2", "_add_reaction:filter dominates append", (NF, a.line), f"the test of the allowed list that guards the append is not understood: {detail[:200]}")
+            return
     ctx.check(dominated, "R2", "_add_reaction:filter dominates append", (NF, a.line),
               "a reaction is appended only if the allowed list is empty or all of its reactants and products are in it (Species membership)" if dominated else
               "the append is not dominated by `all(rp in self._allowed_species for rp in reactants + products)`: a reaction mentioning a disallowed species "
@@ -322,7 +332,9 @@ def _r2(ctx, pkg):
     seq_rec = rec[0][4] if rec else 0
     reset_after = all(f.seq > seq_rec for f in sfl.facts if (f.kind == "attrstore" and f.target in ("reaction_list", "_skipped_reactions")) or (f.kind == "call" and f.target == "clear"))
     re_add = [f for f in sfl.facts if f.kind == "call" and f.target == "add_reaction" and f.loops and simp(f.loops[0].iter) == (simp(rec[0][0]) if rec else None)]
-    ok = {"_reactants", "_products"} <= clears | set(resets) and resets.get("reaction_list") == ("list", ()) and resets.get("_skipped_reactions") == ("list", ()) and ok_rec and reset_after and len(re_add) == 1
+    # emptied: re-bound to a new empty list, or cleared in place (the snapshot is a new list, see ok_rec)
+    emptied = lambda attr: simp(resets.get(attr, ("?",))) in (("list", ()), ("call", ("global", "list"), (), ())) or attr in clears
+    ok = {"_reactants", "_products"} <= clears | set(resets) and emptied("reaction_list") and emptied("_skipped_reactions") and ok_rec and reset_after and len(re_add) == 1
     ctx.check(ok, "R2", "allowed_species.setter", (NF, st.lineno),
               "the setter records reaction_list + _skipped_reactions, clears all caches, and re-adds every recorded reaction through add_reaction",
               found=f"clears {sorted(clears)}, resets {sorted(resets)}, recorded={show(simp(rec[0][0]))[:60] if rec else None}, re-add loops {len(re_add)}")
@@ -1085,3 +1097,5 @@ BENIGN += [{"name": "cache-update-only-when-something-is-new", "file": NF, "old"
             "new": "        if new_reactants:\n            self._reactants.update(new_reactants)\n        if new_products:\n            self._products.update(new_products)\n"}]
 MUTANTS += [{"name": "products-updated-only-when-reactants-are-new", "file": NF, "old": "        self._reactants.update(new_reactants)\n        self._products.update(new_products)\n",
              "new": "        if new_reactants:\n            self._reactants.update(new_reactants)\n            self._products.update(new_products)\n", "rules": ["R1", "R2"]}]
+BENIGN += [{"name": "setter-clears-the-lists-in-place", "file": NF, "old": "        self.reaction_list = []\n        self._skipped_reactions = []\n\n        for reaction in recorded_reactions:",
+            "new": "        self.reaction_list.clear()\n        self._skipped_reactions.clear()\n\n        for reaction in recorded_reactions:"}]
